@@ -4,7 +4,7 @@ from fractions import Fraction
 
 from ..program import Program, dotted, norm
 from ..report import AnalysisError
-from ..flow import guards_of, facts
+from ..flow import guards_of, facts, stores
 from ..algebra import SymEval, C, L, Rat, run_block
 
 M = 'cherab/core/math/'
@@ -54,6 +54,8 @@ class WrapEval(SymEval):
 
     def attribute(self, n):
         d = dotted(n)
+        if isinstance(n.value, ast.Name) and n.value.id in self.env and n.attr in ('x', 'y', 'z'):
+            return L('%s.%s' % (self.env[n.value.id].key(), n.attr))      # component of a local vector
         if d and d.startswith('self.') and d.count('.') == 1:
             f = d[5:]
             if d in self.env:
@@ -136,8 +138,61 @@ def check(run):
     _r1(run, prog)
     _r2(run, prog)
     _r3(run, prog)
+    _r4(run, prog)
     from ..cachekey import check_caches
     check_caches(run, [m for k, m in prog.modules.items() if k.startswith('cherab.core.math') and not k.endswith('#pxd')], 'C13-K')
+
+
+# ------------------------------------------------------------------------------------------ R4
+def _r4(run, prog):
+    """The polygon mask is the mesh of the triangulation of the given vertices, for every polygon: the triangles handed to the
+    mesh have no other source than triangulate2d(vertices), and the mesh gets the same vertices, value 1 inside, 0 outside."""
+    from ..inline import prep, class_lookup
+    run.describe('C13-R4', 'PolygonMask2D: the mesh is built from triangulate2d(vertices) for every polygon; 1 inside, 0 (default) outside')
+    ci = [c for c in prog.classes.values() if c.name == 'PolygonMask2D']
+    if not ci:
+        raise AnalysisError('anchored class vanished: PolygonMask2D')
+    ci = ci[0]
+    init0 = ci.methods.get('__init__')
+    if init0 is None:
+        raise AnalysisError('anchored method vanished: PolygonMask2D.__init__')
+    init = prep(init0, class_lookup(prog, ci))
+    K = '%s|PolygonMask2D|__init__|' % ci.mod.name
+    run.subject('C13-R4')
+    mesh = [c for c in ast.walk(init) if isinstance(c, ast.Call) and dotted(c.func) == 'Discrete2DMesh']
+    if len(mesh) != 1 or len(mesh[0].args) < 3:
+        run.undecided('C13-R4', 'PolygonMask2D mesh', 'Discrete2DMesh construction not recognised')
+        return
+    m = mesh[0]
+    tri = m.args[1]
+    # every definition that can reach the triangles argument
+    srcs = []
+    if isinstance(tri, ast.Name):
+        srcs = [v for t, v, st in stores(init) if isinstance(t, ast.Name) and t.id == tri.id]
+    else:
+        srcs = [tri]
+    vtx = norm(m.args[0])
+    bad = [v for v in srcs if not (isinstance(v, ast.Call) and dotted(v.func) == 'triangulate2d' and len(v.args) == 1 and norm(v.args[0]) == vtx)]
+    if not srcs:
+        run.undecided('C13-R4', 'PolygonMask2D triangles', 'source of the triangles not found')
+    elif bad:
+        run.fail('C13-R4', K + 'triangles-source', ci.mod.relpath, getattr(bad[0], 'lineno', init0.lineno),
+                 'PolygonMask2D takes its triangles from %s for some polygons instead of triangulate2d(%s): a fixed split is wrong for concave polygons, '
+                 'the mask is then 1 outside the polygon' % (norm(bad[0])[:80], vtx))
+    else:
+        run.ok('C13-R4', 'PolygonMask2D triangles', 'triangulate2d(%s) is the only source' % vtx)
+    run.subject('C13-R4')
+    kws = {k.arg: norm(k.value) for k in m.keywords}
+    data = m.args[2]
+    dsrc = [v for t, v, st in stores(init) if isinstance(t, ast.Name) and isinstance(data, ast.Name) and t.id == data.id] or [data]
+    ones = all(isinstance(v, ast.Call) and dotted(v.func) in ('np.ones', 'numpy.ones', 'ones') for v in dsrc)
+    if ones and kws.get('default_value') in ('0.0', '0') and kws.get('limit') == 'False':
+        run.ok('C13-R4', 'PolygonMask2D values', '1 on every triangle, default 0 outside')
+    elif not ones or kws.get('default_value') not in ('0.0', '0', None):
+        run.fail('C13-R4', K + 'values', ci.mod.relpath, m.lineno, 'PolygonMask2D mesh values %s, default %s; documented: 1 inside, 0 outside' % (
+            [norm(v)[:40] for v in dsrc], kws.get('default_value')))
+    else:
+        run.undecided('C13-R4', 'PolygonMask2D values', 'mesh keywords %s' % kws)
 
 
 # ------------------------------------------------------------------------------------------ R1
@@ -337,6 +392,15 @@ def _r2(run, prog):
                          '%s.evaluate has no return path for the case %s' % (cname, guard or 'any'))
                 continue
             bad = [c for c in cands if not c[0].eq(want)]
+            if bad and want.key().startswith('ROT('):
+                verdicts = [_hand_rotation(c, want, evm, origin, tags) for c in bad]
+                if all(v is True for v in verdicts):
+                    bad = []
+                else:
+                    msgs = [v for v in verdicts if isinstance(v, str)]
+                    if msgs:
+                        run.fail('C13-R2', K + 'rotation', ci.mod.relpath, bad[0][2].lineno, '%s.evaluate: %s' % (cname, msgs[0]))
+                        continue
             if not bad:
                 run.ok('C13-R2', '%s%s' % (cname, ' [%s]' % guard if guard else ''), want.key())
             else:
@@ -345,7 +409,10 @@ def _r2(run, prog):
         # every return path is covered by a case and the wrapped function is evaluated exactly once per path
         for val, f, r in got:
             run.subject('C13-R2')
-            n = sum(k.count('F(') for k in [val.key()])
+            import re as _re
+            n = len({_fleaf(l) for l in val.leaves() if 'F(' in l} - {None}) if val.leaves() else 0
+            if n == 0:
+                n = sum(k.count('F(') for k in [val.key()])
             if n == 1:
                 run.ok('C13-R2', '%s single evaluation' % cname, val.key(), sample=False)
             else:
@@ -392,6 +459,59 @@ def _r2(run, prog):
         run.fail('C13-R2', K + 'selector', ci.mod.relpath, evm.lineno,
                  'Swizzle3D.evaluate does not map output axis i to input coordinate shape[i]: selector %s' % sel)
     run.floor('C13-R2', 45)
+
+
+def _fleaf(leaf):
+    """the wrapped-function call 'F(...)' a leaf is built from (F(...), F(...).x, ROT(F(...), a), clamp(F(...), ..)), else None"""
+    i = leaf.find('F(')
+    if i < 0:
+        return None
+    depth = 0
+    for j in range(i + 1, len(leaf)):
+        if leaf[j] == '(':
+            depth += 1
+        elif leaf[j] == ')':
+            depth -= 1
+            if depth == 0:
+                return leaf[i:j + 1]
+    return None
+
+
+def _hand_rotation(cand, want, evm, origin, tags):
+    """A vector written out as new_vector3d(a, b, c) where the documented value is ROT(F, toroidal angle): True if it is that
+    rotation (cos = x/r, sin = y/r) and the division by r is guarded off the axis, a message if it is a different vector or
+    unguarded, None if the form is not recognised."""
+    val, f, r = cand
+    node = r.value
+    fl0 = _fleaf(want.key())
+    if fl0 is not None and val.eq(L(fl0)):
+        # the unrotated vector: exact where the toroidal angle is zero by convention, i.e. on the axis
+        on_axis = any(a[1] == '==' and a[2] in ('0', '0.0') and (a[0] == 'r' or a[0].replace(' ', '').startswith('sqrt(')) for a in f) or \
+            (any(a[0] == 'x' and a[1] == '==' and a[2] in ('0', '0.0') for a in f) and any(a[0] == 'y' and a[1] == '==' and a[2] in ('0', '0.0') for a in f))
+        return True if on_axis else 'returns the wrapped vector without rotating it by the toroidal angle'
+    if not (isinstance(node, ast.Call) and dotted(node.func) in ('new_vector3d', 'Vector3D') and len(node.args) == 3):
+        return None
+    e = WrapEval(origin, tags)
+    run_block(e, _stmts_before(evm, r))
+    A, B, Cc = [e.ev(a) for a in node.args]
+    fl = _fleaf(want.key())
+    if fl is None:
+        return None
+    Fx, Fy, Fz = L(fl + '.x'), L(fl + '.y'), L(fl + '.z')
+    X, Y = L('x'), L('y')
+    R = e.ev(ast.parse('sqrt(x * x + y * y)', mode='eval').body)
+    okx = e.reduce_sqrt((A * R - (Fx * X - Fy * Y)) * R).is_zero() if hasattr(e, 'reduce_sqrt') else (A * R).eq(Fx * X - Fy * Y)
+    oky = e.reduce_sqrt((B * R - (Fx * Y + Fy * X)) * R).is_zero() if hasattr(e, 'reduce_sqrt') else (B * R).eq(Fx * Y + Fy * X)
+    okz = Cc.eq(Fz)
+    if not (okx and oky and okz):
+        return ('returns the vector (%s, %s, %s); documented: the wrapped vector rotated about z by the toroidal angle, i.e. '
+                '(v.x cos - v.y sin, v.x sin + v.y cos, v.z) with cos = x/r, sin = y/r' % (A.key()[:80], B.key()[:80], Cc.key()[:30]))
+    guarded = any((a[0].replace(' ', '') in ('r', R.key().replace(' ', '')) and a[1] in ('>', '!=') and a[2] in ('0', '0.0')) for a in f) or \
+        any(a[1] in ('!=',) and a[0] in ('x', 'y') and a[2] in ('0', '0.0') for a in f)
+    if not guarded:
+        return ('writes the rotation out with cos = x/r, sin = y/r without excluding r = 0: on the axis (x = y = 0) the result is NaN, where the '
+                'documented mapping returns the wrapped vector unrotated')
+    return True
 
 
 def _canon_field(text, origin):
@@ -599,6 +719,7 @@ MUTANTS = [
     dict(name='ctor-miswires-bounds', file=_CL, find="        self._min = min\n        self._max = max", replace="        self._min = max\n        self._max = min", occurrence=1, of=3, expect='C13-R2'),
 ]
 TWINS = [
+    dict(name='guarded-hand-written-rotation', patch='sa/patches/c13_guarded_hand_rotation.diff'),
     dict(name='square-spelled-as-power', file=_MP, find="        return self.function2d.evaluate(sqrt(x*x + y*y), z)", replace="        r = sqrt(y**2 + x**2)\n        return self.function2d.evaluate(r, z)"),
     dict(name='degrees-reordered', file=_CY, find="rotate_z(phi / M_PI * 180)", replace="rotate_z(180 * phi / M_PI)"),
 ]
